@@ -181,6 +181,8 @@ type Step struct {
 	Path  string `json:"path,omitempty"`  // root-relative file (write, remove)
 	Data  []byte `json:"data,omitempty"`  // new content (write)
 	Label string `json:"label,omitempty"` // target to run (run; "" = the request's label)
+	// Real: this run is an ordinary build whatever the request's Always / DryRun options say
+	Real bool `json:"real,omitempty"`
 }
 
 // StepResult is the outcome of one Step.
@@ -520,7 +522,11 @@ func RunBuild(env *Env, req BuildReq, logOff int) (res BuildResult, newOff int) 
 						sl = pl
 					}
 				}
-				if err := proj.Run(sl, &dawn.RunOptions{Always: req.Always, DryRun: req.DryRun}); err != nil {
+				opts := &dawn.RunOptions{Always: req.Always, DryRun: req.DryRun}
+				if st.Real {
+					opts = &dawn.RunOptions{}
+				}
+				if err := proj.Run(sl, opts); err != nil {
 					sr.Err = err.Error()
 					settle()
 				}
